@@ -112,10 +112,16 @@ func checkC02(w *World, r *Report) {
 	{
 		edges := nonNegEdges(mint, amount)
 		r.Check(MustPass(mint, edges, amStore.Block()), "C02.nonneg", "AmountMinted updated only for a non-negative amount", w.Pos(amStore.Pos()), "dominated by the false edge of amount.IsNegative()", "a negative amount can be booked")
-		for _, s := range cg.Sites[mint] {
-			if calleeIs(s, "x/cfeminter/keeper.Keeper.MintCoins") || cg.Atom(s) == BankMint {
-				r.Check(MustPass(mint, edges, s.Instr.Block()), "C02.nonneg", "mint only for a non-negative amount", w.Pos(s.Instr.Pos()), "dominated by the false edge of amount.IsNegative()", "a negative amount can reach the bank's MintCoins")
+		// the call of the routine through which the bank's MintCoins is reached (directly, through the keeper's wrapper,
+		// or through a helper that mints and forwards)
+		seenTop := map[ssa.Instruction]bool{}
+		for _, e := range w.effectsBelow(mint, func(x *Site) bool { return cg.Atom(x) == BankMint }, 3) {
+			top := e.Top()
+			if seenTop[top] {
+				continue
 			}
+			seenTop[top] = true
+			r.Check(MustPass(mint, edges, top.Block()), "C02.nonneg", "mint only for a non-negative amount", w.Pos(top.Pos()), "dominated by the false edge of amount.IsNegative()", "a negative amount can reach the bank's MintCoins")
 		}
 	}
 	// ---------- C02.boundaries (a): Keeper.Mint ----------
